@@ -33,3 +33,15 @@ pub fn unesc(s: &str) -> String {
 
 /// Rust `splitn(n, ' ')`
 pub fn splitn(s: &str, n: usize) -> Vec<&str> { s.splitn(n, ' ').collect() }
+
+/// escape for the `order=` annotation: additionally escapes , ; :
+pub fn esc_order(s: &str) -> String {
+    if s.is_empty() { return "\\e".to_string(); }
+    let mut o = String::new();
+    for &b in s.as_bytes() {
+        if b == 92 { o.push_str("\\\\"); }
+        else if b == b',' || b == b';' || b == b':' || b == 32 || !(32..127).contains(&b) { o.push_str(&format!("\\x{:02x}", b)); }
+        else { o.push(b as char); }
+    }
+    o
+}
